@@ -137,7 +137,9 @@ func (l *entryLog) AddEntries(entries []raftpb.Entry) error {
 			if l.nextEntryIdx > lastIdx {
 				logger.GetLogger().Info("clearCurrentFile slots", zap.Int("startSlot", lastIdx), zap.Int("endSlot", l.nextEntryIdx))
 				if err := zeroSlots(l.current.entry, lastIdx, l.nextEntryIdx); err != nil {
-					// nothing has been changed yet: the caller retries the whole batch
+					// the top of the range may be cleared already: the log ends at the first empty slot; the caller
+					// retries the whole batch
+					l.nextEntryIdx = l.current.firstEmptySlot()
 					return errors.Wrapf(err, "while clearing slots of the current file")
 				}
 			}
@@ -177,6 +179,7 @@ func (l *entryLog) AddEntries(entries []raftpb.Entry) error {
 			// [lastIdx, nextEntryIdx) again.
 			l.nextEntryIdx = l.current.firstEmptySlot()
 			if err := zeroSlots(l.current.entry, lastIdx, maxNumEntries); err != nil {
+				l.nextEntryIdx = l.current.firstEmptySlot()
 				return errors.Wrapf(err, "while clearing slots of the reused file")
 			}
 		}
